@@ -120,7 +120,10 @@ def gen_plan(prop, seed, tier):
     # elimination meets integers beyond 64 bits and long multiplicity patterns
     large = tier == "thorough" and not rational and mode == "exact" and profile in ("frac", "vec") and rng.random() < 0.06
     cfg["large"] = large
-    cfg["bigden"] = mode == "exact" and profile in ("frac", "vec") and not cfg["shadow"] and not rational and rng.random() < 0.12
+    # (only where insertion is the judged operation: exact least squares over such numbers can take minutes per step)
+    cfg["bigden"] = prop == "C04" and mode == "exact" and profile in ("frac", "vec") and not cfg["shadow"] and not rational and rng.random() < 0.12
+    if cfg["bigden"]:
+        maxp = min(maxp, 3)
     # control points far from the origin (translation must not change any accept / refuse decision)
     cfg["offset"] = rng.choice(["1000000", "3000000", "-2500000"]) if (mode == "exact" and profile in ("frac", "vec") and rng.random() < 0.08) else None
     # control points handed in as row views of ONE parent array, in reversed row order
